@@ -678,7 +678,7 @@ def get_fully_qualified_name(obj: Union[FunctionType, type]) -> str:
     return name
 
 
-@dataclass(frozen=True)
+@dataclass(frozen=True, eq=False)
 class KnownValueWithTypeVars(KnownValue):
     """Subclass of KnownValue that records a TypeVar substitution."""
 
